@@ -2798,32 +2798,30 @@ class Binop(Elemwise):
 
     def _simplify_up(self, parent, dependents):
         if isinstance(parent, Projection):
-            changed = False
             columns = determine_column_projection(self, parent, dependents)
             columns = _convert_to_list(columns)
             columns = [col for col in self.columns if col in columns]
-            if (
-                isinstance(self.left, Expr)
-                and self.left.ndim > 1
-                and self.left.columns != columns
-            ):
-                left = self.left[columns]  # TODO: filter just the correct columns
-                changed = True
-            else:
-                left = self.left
-            if (
-                isinstance(self.right, Expr)
-                and self.right.ndim > 1
-                and self.right.columns != columns
-            ):
-                right = self.right[columns]  # TODO: filter just the correct columns
-                changed = True
-            else:
-                right = self.right
-            if not changed:
+
+            def project(side):
+                # each operand keeps the requested columns IT HAS (the operands of
+                # an aligned operation need not have the same columns)
+                if isinstance(side, Expr) and side.ndim > 1:
+                    cols = [col for col in side.columns if col in columns]
+                    if cols != side.columns:
+                        return side[cols], True
+                return side, False
+
+            left, changed_left = project(self.left)
+            right, changed_right = project(self.right)
+            if not (changed_left or changed_right):
                 return
 
-            return type(parent)(type(self)(left, right), *parent.operands[1:])
+            # keep every other operand (MethodOperator: name, axis, level, fill_value)
+            operands = [
+                left if param == "left" else right if param == "right" else op
+                for param, op in zip(self._parameters, self.operands)
+            ]
+            return type(parent)(type(self)(*operands), *parent.operands[1:])
 
     def _node_label_args(self):
         return [self.left, self.right]
@@ -3788,7 +3786,10 @@ class MapIndexAlign(MapAlign):
 
 class OpAlignPartitions(MaybeAlignPartitions):
     _parameters = ["frame", "other", "op"]
-    _projection_passthrough = True
+    # A projection of the result cannot be pushed into ``frame`` alone: the
+    # columns of ``other`` would survive (wrong shape), and a scalar selection
+    # would turn ``frame`` into a Series that is then combined with a frame.
+    _projection_passthrough = False
 
     @functools.cached_property
     def _meta(self):
